@@ -246,6 +246,21 @@ func runC08(x *X) {
 		x.State(g.ShapeKey())
 		c08Check(x, c, &c08Input{g: g}, nil)
 	})
+	long := LongTexts("|")
+	x.Explore("long-texts", ExploreOpts{ShardDepth: 2, Bound: fmt.Sprintf("6 positions x %d long texts (63..1025 bytes, with a pipe in the middle/at the end, multi-byte, 40 lines)", len(long))}, func(c *Chooser) {
+		p := positions[c.Choose(len(positions))]
+		s := long[c.Choose(len(long))]
+		g := &Grid{HasHeader: true, Header: []string{"h1", "h2", "h3"}, Rows: []GridRow{{Cells: []string{"c1", "c2", "c3"}}, {Cells: []string{"d1"}}}}
+		if p.header {
+			g.Header[p.col] = s
+		} else {
+			g.Rows[0].Cells[p.col] = s
+		}
+		c.Logf("position=%s text of %d bytes", p.name, len(s))
+		x.Transition(1)
+		x.Nontrivial(fmt.Sprint(p.name, len(s), hashStr(s)))
+		c08Check(x, c, &c08Input{g: g}, []string{"position:" + p.name, "long_text"})
+	})
 	ldepth := x.Pick(4, 5)
 	lops := lifeOps(true, false)
 	x.Explore("lifecycle", ExploreOpts{ShardDepth: 2, Bound: fmt.Sprintf("one table + one long-lived markdown wrapper: all sequences of <=%d operations over %d in-place modifications/alignment changes, Render, failed RenderTo", ldepth, len(lops))}, func(c *Chooser) {
